@@ -6,6 +6,7 @@ import EAO.Driver.Storage
 import EAO.Driver.Slp
 import EAO.Driver.Scaled
 import EAO.Driver.CHP
+import EAO.Driver.Periodic
 /-!
 Line-protocol driver: one JSON request per line on stdin, one JSON response per line on stdout.
 `{"ok": …}` or `{"err": "<class>"}`.  Unknown or ill-formed requests are answered with
@@ -15,7 +16,7 @@ operations it knows.
 open Lean EAO EAO.Driver
 
 def handlers : List (String → Json → Option (Except String Json)) :=
-  [handleCore, handleGrid, handleOrderBook, handleContract, handleStorage, handleSlp, handleCHP, handleScaled]
+  [handleCore, handleGrid, handleOrderBook, handleContract, handleStorage, handleSlp, handleCHP, handleScaled, handlePeriodic]
 
 def handle (j : Json) : Except String Json := do
   let op ← field j "op" Json.getStr?
